@@ -3,16 +3,22 @@
 // here the five spec functions are uninterpreted, so everything proved in this unit holds for any model,
 // and the lemma below is the only ASSUMED fact about it.
 pub uninterp spec fn cw_wf(c: ConnectorWrapper) -> bool;
+pub uninterp spec fn cw_shape(c: ConnectorWrapper) -> bool;
 pub uninterp spec fn cw_num_left(c: ConnectorWrapper) -> int;
 pub uninterp spec fn cw_num_right(c: ConnectorWrapper) -> int;
 pub uninterp spec fn cw_cost(c: ConnectorWrapper, r: u16, l: u16) -> int;
 pub uninterp spec fn cw_bound(c: ConnectorWrapper) -> int;
 impl CostModel for ConnectorWrapper {
     open spec fn conn_wf(&self) -> bool { cw_wf(*self) }
+    open spec fn conn_shape(&self) -> bool { cw_shape(*self) }
     open spec fn spec_num_left(&self) -> int { cw_num_left(*self) }
     open spec fn spec_num_right(&self) -> int { cw_num_right(*self) }
     open spec fn spec_cost(&self, right_id: u16, left_id: u16) -> int { cw_cost(*self, right_id, left_id) }
     open spec fn spec_cost_bound(&self) -> int { cw_bound(*self) }
     #[verifier::external_body]
     proof fn lemma_conn_wf(&self) {}
+    #[verifier::external_body]
+    proof fn lemma_shape_of_wf(&self) {}
+    #[verifier::external_body]
+    proof fn lemma_wf_of_shape(&self) {}
 }
